@@ -100,24 +100,34 @@ var storeLockSeed = maphash.MakeSeed()
 
 func (c *MemoryCache) Get(k []byte) (v pool.Buffer, storedTime, expireTime time.Time) {
 	c.getTotal.Inc()
-	e, ok := c.backend.Get(utils.Bytes2StrUnsafe(k))
-	if ok { // key hit
-		if e.l.TryRLock() {
-			if e.v == nil || e.k != string(k) { // entry has been released or reused
-				e.l.RUnlock()
-				return nil, time.Time{}, time.Time{}
+	// A lookup that runs into an entry that is just being replaced (the backend
+	// reports the old entry as dead, or the old entry has been released or is
+	// locked by its release) must not be taken for a miss: the key is still
+	// cached. Look again. The replacement is in the backend already.
+	misses := 0
+	for retry := 0; retry < 8; retry++ {
+		e, ok := c.backend.Get(utils.Bytes2StrUnsafe(k))
+		if !ok {
+			if misses++; misses < 3 {
+				continue
 			}
-
-			v = pool.CopyBuf(e.v)
-			storedTime = e.storedTime
-			expireTime = e.expireTime
-			e.l.RUnlock()
-			c.hitTotal.Inc()
-			return v, storedTime, expireTime
+			break // miss
 		}
-		return nil, time.Time{}, time.Time{} // entry is being released
+		if !e.l.TryRLock() {
+			continue // entry is being released
+		}
+		if e.v == nil || e.k != string(k) { // entry has been released
+			e.l.RUnlock()
+			continue
+		}
+		v = pool.CopyBuf(e.v)
+		storedTime = e.storedTime
+		expireTime = e.expireTime
+		e.l.RUnlock()
+		c.hitTotal.Inc()
+		return v, storedTime, expireTime
 	}
-	return nil, time.Time{}, time.Time{} // miss
+	return nil, time.Time{}, time.Time{}
 }
 
 // Always returns nil.
